@@ -245,7 +245,8 @@ impl<R: Reader> UnitIndex<R> {
                 let mut hash_rows = self.hash_rows.clone();
                 hash_rows.skip(R::Offset::from_u64(hash1 * 4).ok()?).ok()?;
                 let hash_row = hash_rows.read_u32().ok()?;
-                return Some(hash_row);
+                // A row of 0 is an unused slot, which matches an `id` of 0.
+                return if hash_row == 0 { None } else { Some(hash_row) };
             }
             if hash_id == 0 {
                 return None;
